@@ -296,31 +296,19 @@ func genEntries(r *rand.Rand, w world) []ent {
 		}
 	}
 	rootName := "r"
-	if r.Intn(15) == 0 {
+	if r.Intn(20) == 0 {
 		rootName = []string{"", ".", "..", "r/x", "x y", "r.", "rr"}[r.Intn(7)]
 	}
-	comps := []string{"a", "b", "d", "dd", "e", "x y", "ex", "in", "f", "self"}
-	pool := make([][]string, 2+r.Intn(4))
-	for i := range pool {
-		k := 1 + r.Intn(3)
-		p := make([]string, k)
-		for j := range p {
-			p[j] = comps[r.Intn(len(comps))]
-		}
-		if i > 0 && r.Intn(3) == 0 {
-			// below or above an earlier pool path
-			q := pool[r.Intn(i)]
-			if r.Intn(2) == 0 && len(q) < 3 {
-				p = append(append([]string{}, q...), comps[r.Intn(len(comps))])
-			} else if len(q) > 1 {
-				p = append([]string{}, q[:len(q)-1]...)
-			}
-		}
-		pool[i] = p
+	comps := []string{"a", "b", "d", "dd", "e", "x y", "ex", "in", "f", "self", "n1", "n2"}
+	// directories believed to exist below the target (so that most entries pass outputPath), and every path used so far
+	dirs := [][]string{{}}
+	if w.kind == "populated" {
+		dirs = append(dirs, []string{"d"}, []string{"d", "in"})
 	}
+	var used [][]string
 	var es []ent
 	first := ent{name: rootName, typ: tar.TypeDir, mode: modes[r.Intn(len(modes))], mtime: mtimes[r.Intn(len(mtimes))]}
-	switch r.Intn(12) {
+	switch r.Intn(14) {
 	case 0:
 		first.typ, first.content = tar.TypeReg, 1
 	case 1:
@@ -333,16 +321,33 @@ func genEntries(r *rand.Rand, w world) []ent {
 		}
 	}
 	es = append(es, first)
-	n := r.Intn(10)
+	n := r.Intn(11)
 	for i := 0; i < n; i++ {
-		p := pool[r.Intn(len(pool))]
-		e := ent{name: rootName + "/" + strings.Join(p, "/"), mode: modes[r.Intn(len(modes))], mtime: mtimes[r.Intn(len(mtimes))], content: 10 + i}
-		switch x := r.Intn(20); {
+		var p []string
+		switch x := r.Intn(10); {
+		case x < 4 && len(used) > 0:
+			p = used[r.Intn(len(used))] // same name again, usually with another type
 		case x < 9:
+			par := dirs[r.Intn(len(dirs))]
+			p = append(append([]string{}, par...), comps[r.Intn(len(comps))])
+		default:
+			k := 1 + r.Intn(3)
+			for j := 0; j < k; j++ {
+				p = append(p, comps[r.Intn(len(comps))])
+			}
+		}
+		if len(p) > 4 {
+			p = p[:4]
+		}
+		used = append(used, p)
+		e := ent{name: rootName + "/" + strings.Join(p, "/"), mode: modes[r.Intn(len(modes))], mtime: mtimes[r.Intn(len(mtimes))], content: 10 + i}
+		switch x := r.Intn(40); {
+		case x < 18:
 			e.typ = tar.TypeDir
-		case x < 14:
+			dirs = append(dirs, p)
+		case x < 26:
 			e.typ = tar.TypeReg
-		case x < 19:
+		case x < 39:
 			e.typ = tar.TypeSymlink
 			ts := targets(len(p))
 			e.link = ts[r.Intn(len(ts))]
@@ -350,7 +355,7 @@ func genEntries(r *rand.Rand, w world) []ent {
 			e.typ = []byte{tar.TypeLink, tar.TypeFifo, tar.TypeChar}[r.Intn(3)]
 			e.link = "x"
 		}
-		if r.Intn(25) == 0 {
+		if r.Intn(40) == 0 {
 			// hostile names (all stay inside the jail even if the extractor accepted them)
 			e.name = []string{"/abs/x", rootName + "//a", rootName + "/./a", rootName + "/../x", rootName + "/a/../../x", "q/a", rootName,
 				rootName + "/", rootName + "a/b", "../x", rootName + "/a/..", rootName + "/" + strings.Repeat("n", 256), rootName + "/..a", rootName + "/a/./b"}[r.Intn(14)]
